@@ -43,8 +43,8 @@ type Data struct {
 	Decor      int          `json:"decor,omitempty"`
 	Policy     string       `json:"policy,omitempty"`
 	Choices    []int        `json:"choices,omitempty"`
-	Native     string       `json:"native"`            // informational
-	JSON       string       `json:"json,omitempty"`    // informational (pinned encoding)
+	Native     string       `json:"native"`         // informational
+	JSON       string       `json:"json,omitempty"` // informational (pinned encoding)
 }
 
 var counters engine.Counter
